@@ -169,6 +169,11 @@ var sigma02 = [][]byte{
 	{' '}, {'\t'}, {'\n'}, {'\r'}, {'\f'}, {0x1B}, {0x7F}, {'%'}, {'*'}, {0x80}, {0xC3, 0xA9}, {0xE2}, {0xFF}, {0xC0},
 }
 
+var injectionLabels = []string{
+	"x; charset=y", "x;charset=y", "iso-8859-1; charset=utf-8", "a; b=c", "a;b", "a; q=1; charset=z", "; charset=", "a\"; b=\"c", "a, b", "a/b", "a b c",
+	"x; charset=x", "latin1; CHARSET=utf-8", "a;;b", "a; =b", "a; b=", "utf-8;", " utf-8", "utf-8 ", "x\\; charset=y", "x%3B charset=y", "a\tb; c=d",
+}
+
 var c02Contexts = []string{
 	`<html><head><meta charset="L"></head>`,
 	`<html><meta charset='L'>`,
@@ -287,4 +292,10 @@ func c02Run(c *core.Ctx) {
 	}
 	// single-symbol labels by shard 0, deeper ones sharded at depth 2
 	rec(nil, 0)
+	// labels that try to smuggle separators, further parameters or a second charset
+	if c.Mine(1) {
+		for _, l := range injectionLabels {
+			rec([]byte(l), 2)
+		}
+	}
 }
